@@ -36,7 +36,7 @@ def gen(rng, tier):
     custom = rng.random() < 0.2
     cfg = {"max_genes": 3, "max_tx": 2, "shuffle": rng.random() < 0.4, "shuffle_within": rng.random() < 0.4,
            "explicit_tx": rng.random() < 0.35, "explicit_gene": rng.random() < 0.35, "explicit_odd": rng.random() < 0.5,
-           "explicit_source": rng.choice(["src", "ensembl"])}
+           "explicit_source": rng.choice(["src", "ensembl"]), "gene_level": rng.random() < 0.3}
     if custom:
         cfg.update({"transcript_key": "tid", "gene_key": "gid", "subfeature": "part"})
     long_run = rng.random() < 0.04  # a minority of long inputs (batch-size / buffer effects)
